@@ -1,9 +1,10 @@
 use crate::engine::Prop;
 
 pub mod c01;
+pub mod c02;
 
 pub fn all() -> Vec<Box<dyn Prop>> {
-    vec![Box::new(c01::C01)]
+    vec![Box::new(c01::C01), Box::new(c02::C02)]
 }
 
 pub fn find(id: &str) -> Option<Box<dyn Prop>> {
